@@ -152,6 +152,42 @@ def build_chart_data(d):
     return cd
 
 
+def grow_chart_data(cd, old, new):
+    """Bring the live chart-data object cd (built from the description old) to the description new, which
+    extends old monotonically, by IN-PLACE additions through the public API (add_category, add_sub_category,
+    add_series, add_data_point): the way a caller re-uses one chart-data object for add_chart and later
+    replace_data calls."""
+    if new["k"] == "cat":
+        def build(parent, t, top):
+            c = parent.add_category(py_label(t[0])) if top else parent.add_sub_category(py_label(t[0]))
+            for s in t[1]:
+                build(c, s, False)
+
+        def walk(parent, live, o, n, top):
+            for i, t in enumerate(n):
+                if i < len(o):
+                    walk(live[i], list(live[i].sub_categories), o[i][1], t[1], False)
+                else:
+                    build(parent, t, top)
+
+        walk(cd, list(cd.categories), old["cats"], new["cats"], True)
+        for i, (name, fmt, vals) in enumerate(new["sers"]):
+            if i < len(old["sers"]):
+                for v in vals[len(old["sers"][i][2]):]:
+                    cd[i].add_data_point(v)
+            else:
+                cd.add_series(name, vals, fmt)
+        return cd
+    for i, (name, fmt, pts) in enumerate(new["sers"]):
+        if i < len(old["sers"]):
+            sr, extra = cd[i], pts[len(old["sers"][i][2]):]
+        else:
+            sr, extra = cd.add_series(name, fmt), pts
+        for pt in extra:
+            sr.add_data_point(*pt)
+    return cd
+
+
 def numtext(v):
     return "" if v is None else str(v)
 
@@ -515,12 +551,15 @@ def impl_run(case, deck):
     case["_raw0"] = None
     extra_tags = {}
     try:
+        live = None
         if init[0] == "W":
             ids = Ids(True)
-            chart = deck.chart(init[1], build_chart_data(init[2]))
+            live = build_chart_data(init[2])
+            chart = deck.chart(init[1], live)
         elif init[0] == "G":  # generated, then switched to the 1904 date system
             ids = Ids(False)
-            chart = deck.chart(init[1], build_chart_data(init[2]))
+            live = build_chart_data(init[2])
+            chart = deck.chart(init[1], live)
             set_date1904(chart)
         else:
             ids = Ids(False)
@@ -538,9 +577,15 @@ def impl_run(case, deck):
         states.append(["ok", canon_chart(sk), impl_reads(chart)])
 
     snap()
+    prev = init[2] if init[0] in ("W", "G") else None
     for d in case["ops"]:
         try:
-            chart.replace_data(build_chart_data(d))
+            if d.get("grow") and live is not None and prev is not None:
+                live = grow_chart_data(live, prev, d)      # the SAME object, extended in place
+            else:
+                live = build_chart_data(d)
+            prev = d
+            chart.replace_data(live)
         except Exception as e:  # noqa
             states.append(["err", exc_name(e)])
             msg = "%s: %s" % (type(e).__name__, e)
@@ -990,6 +1035,52 @@ def xy_shapes(tier, ti):
     return shapes
 
 
+def g_grow(rng, d):
+    """a description that extends d monotonically (more categories / sub-categories / series / points), flagged so that
+    the implementation run obtains it by mutating the previous chart-data object in place"""
+    n = copy.deepcopy(d)
+    n["grow"] = True
+    if n["k"] == "cat":
+        def depth(f):
+            return 1 + depth(f[0][1]) if f and f[0][1] else 1
+        def first_leaf(f):
+            return first_leaf(f[0][1]) if f[0][1] else f[0][0]
+        cats = n["cats"]
+        dep = depth(cats) if cats else 1
+        kind = first_leaf(cats)[0] if cats else "s"
+        def label():
+            if kind == "n":
+                return ["n", g_num(rng)]
+            if kind in ("d", "t"):
+                return ["d"] + list(rng.choice(DATES))
+            return ["s", g_str(rng)]
+        def subtree(levels):
+            return [label(), [] if levels <= 1 else [subtree(levels - 1) for _ in range(rng.randint(1, 2))]]
+        for _ in range(rng.randint(1, 3)):
+            r = rng.random()
+            if r < 0.45 or dep == 1 or not cats:
+                cats.append(subtree(dep))
+            else:
+                node, lv = rng.choice(cats), 1
+                while lv < dep - 1 and rng.random() < 0.5:
+                    node, lv = rng.choice(node[1]), lv + 1
+                node[1].append(subtree(dep - lv))
+        nleaf = count_leaves(cats)
+        for sr in n["sers"]:
+            while len(sr[2]) < nleaf and rng.random() < 0.9:
+                sr[2].append(g_vals(rng, 1, 0.15)[0])
+        if rng.random() < 0.4:
+            n["sers"].append([g_str(rng), None, g_vals(rng, nleaf, 0.15)])
+    else:
+        w = 3 if n["k"] == "bub" else 2
+        for sr in n["sers"]:
+            for _ in range(rng.randint(0, 3)):
+                sr[2].append(g_vals(rng, w, 0.1))
+        if rng.random() < 0.5 or not n["sers"]:
+            n["sers"].append([g_str(rng), None, [g_vals(rng, w, 0.1) for _ in range(rng.randint(1, 4))]])
+    return n
+
+
 def g_ops(rng, fam, n, allow_zero):
     ops = []
     for _ in range(n):
@@ -1037,6 +1128,18 @@ def gen_cases(tier, rng, types):
         if pie:
             d = g_cat_data(rng, {"nser": 3, "ncat": 3})
             cases.append({"class": "pie-several-series", "init": ["W", ct, d], "ops": g_ops(rng, fam, 1, False)})
+    # one chart-data object re-used: add_chart, then the SAME object extended in place and passed to replace_data
+    for ti, (ct, name, fam, pie) in enumerate(types):
+        for rep in range(1 if tier == "quick" else 6):
+            shape = {"nser": rng.randint(1, 3)}
+            if fam == "cat":
+                shape.update([{"cats": "multi", "depth": 2 + (ti + rep) % 3, "top": 2, "fan": 2}, {"ncat": rng.randint(1, 4)}, {"cats": "num"}, {"cats": "date", "ncat": 3}][(ti + rep) % 4])
+            d0 = g_data(rng, fam, shape)
+            ops, cur = [], d0
+            for _ in range(rng.choice([1, 2, 3])):
+                cur = g_grow(rng, cur)
+                ops.append(cur)
+            cases.append({"class": "reuse-grown-in-place", "init": ["W", ct, d0], "ops": ops})
     catt = [t for t in types if t[2] == "cat" and not t[3]]
     for k in range(3 if tier == "quick" else 12):
         ct, name, fam, pie = catt[(k * 7) % len(catt)]
